@@ -73,6 +73,8 @@ namespace pika {
         {
             std::unique_lock<mutex_type> l(mtx_);
             sem_.set_max_difference(l, max_difference, lower_limit);
+            // threads already waiting have to re-evaluate their condition against the new limits
+            sem_.signal_all(std::move(l));
         }
 
         /// \brief Wait for the semaphore to be signaled
